@@ -871,10 +871,11 @@ impl Vm {
                     let result = match op {
                         Op::Add => &lhs + &rhs,
                         Op::Subtract => &lhs - &rhs,
-                        Op::Multiply => Ok(lhs * rhs),
-                        Op::Divide => Ok(lhs
+                        Op::Multiply => (lhs * rhs).with_checked_unit(),
+                        Op::Divide => lhs
                             .checked_div(rhs)
-                            .ok_or_else(|| self.runtime_error(RuntimeErrorKind::DivisionByZero))?),
+                            .ok_or_else(|| self.runtime_error(RuntimeErrorKind::DivisionByZero))?
+                            .with_checked_unit(),
                         Op::Power => Ok(lhs
                             .checked_power(rhs)
                             .map_err(|e| self.runtime_error(RuntimeErrorKind::QuantityError(e)))?
